@@ -30,8 +30,9 @@ class RequestLog(object):
 class Server(object):
     '''handler(request dict) -> response dict {status, reason, headers[(n,v)], body, delay, close, raw}
     request dict: host, method, target, headers, addr (the bound address it arrived on), seq'''
-    def __init__(self, handler, addresses, port=80, delay_seed=0, max_delay=0.0):
+    def __init__(self, handler, addresses, port=80, delay_seed=0, max_delay=0.0, extra_ports=()):
         self.handler = handler
+        self.extra_ports = tuple(extra_ports)   # further ports every address also listens on (entry['port'] tells them apart)
         self.addresses = list(addresses)
         self.port = port
         self.log = RequestLog()
@@ -46,14 +47,15 @@ class Server(object):
 
     def start(self):
         for addr in self.addresses:
-            s = socket.socket(socket.AF_INET, socket.SOCK_STREAM)
-            s.setsockopt(socket.SOL_SOCKET, socket.SO_REUSEADDR, 1)
-            s.bind((addr, self.port))
-            s.listen(64)
-            self.socks.append(s)
-            t = threading.Thread(target=self._accept_loop, args=(s, addr), daemon=True)
-            t.start()
-            self.threads.append(t)
+            for port in (self.port,) + self.extra_ports:
+                s = socket.socket(socket.AF_INET, socket.SOCK_STREAM)
+                s.setsockopt(socket.SOL_SOCKET, socket.SO_REUSEADDR, 1)
+                s.bind((addr, port))
+                s.listen(64)
+                self.socks.append(s)
+                t = threading.Thread(target=self._accept_loop, args=(s, addr, port), daemon=True)
+                t.start()
+                self.threads.append(t)
         return self
 
     def stop(self):
@@ -69,20 +71,22 @@ class Server(object):
             except OSError:
                 pass
 
-    def _accept_loop(self, sock, addr):
+    def _accept_loop(self, sock, addr, port):
         while not self.stopping:
             try:
                 conn, peer = sock.accept()
             except OSError:
                 return
             self.conns.add(conn)
-            t = threading.Thread(target=self._serve, args=(conn, addr), daemon=True)
+            t = threading.Thread(target=self._serve, args=(conn, addr, port), daemon=True)
             t.start()
 
-    def _serve(self, conn, addr):
+    def _serve(self, conn, addr, port):
         buf = b''
         try:
             conn.settimeout(30)
+            # head and body are sent in separate writes: without this every response waits ~40 ms for Nagle/delayed ACK
+            conn.setsockopt(socket.IPPROTO_TCP, socket.TCP_NODELAY, 1)
             while not self.stopping:
                 while b'\r\n\r\n' not in buf:
                     data = conn.recv(65536)
@@ -108,7 +112,7 @@ class Server(object):
                     buf += data
                 body, buf = buf[:length], buf[length:]
                 entry = {'host': hmap.get('host', ''), 'method': method, 'target': target, 'headers': headers,
-                         'addr': addr, 'raw': head + b'\r\n\r\n', 't': time.monotonic()}
+                         'addr': addr, 'port': port, 'raw': head + b'\r\n\r\n', 't': time.monotonic()}
                 self.log.add(entry)
                 if self.on_request:
                     self.on_request(entry, 'request-line')
@@ -162,7 +166,7 @@ _block_lock = threading.Lock()
 _block_counter = [0]
 
 
-def allocate_addresses(n, port=80):
+def allocate_addresses(n, port=80, extra_ports=()):
     '''Find n loopback addresses 127.a.b.{1..n} whose port is free. Returns (addresses, port).'''
     base = os.getpid()
     for attempt in range(400):
@@ -175,9 +179,10 @@ def allocate_addresses(n, port=80):
         socks = []
         try:
             for addr in addrs:
-                s = socket.socket(socket.AF_INET, socket.SOCK_STREAM)
-                s.bind((addr, port))
-                socks.append(s)
+                for pt in (port,) + tuple(extra_ports):
+                    s = socket.socket(socket.AF_INET, socket.SOCK_STREAM)
+                    s.bind((addr, pt))
+                    socks.append(s)
             for s in socks:
                 s.close()
             return addrs, port
